@@ -17,5 +17,11 @@ PayloadEntry entry_string();
 PayloadEntry entry_tracked();
 PayloadEntry entry_doubleoff();
 PayloadEntry entry_trackedoff();
+PayloadEntry entry_a32();
+PayloadEntry entry_a64();
+PayloadEntry entry_a32off();
+PayloadEntry entry_a64off();
+PayloadEntry entry_a32arr();
+PayloadEntry entry_a64arr();
 
 }  // namespace c09
